@@ -295,10 +295,17 @@ def slLine (args impl : List String) : String :=
     | _ => "bad-ann | C02:FAILS oracle:unparsed |"
   | _, _ => "bad-op | C02:FAILS oracle:unparsed |"
 
+/-- the stable even, non-zero generation of the third call of an `slx` scenario: the writer (or its
+    successor) finished and stays quiet -/
+def soloFinal (g0 : Nat) : Nat :=
+  let e := ((g0 / 2) * 2 + 2 * 20011) % 65536
+  if e = 0 then 2 else e
+
 /-- scripted generation value of the k-th generation load (see harness `solo_load`) -/
 def soloGen (g0 period mode k : Nat) : Nat :=
   if mode = 1 then (if k = 0 then g0 else (g0 + 1) % 65536)
   else if mode = 2 then (g0 + 1) % 65536
+  else if mode = 4 then soloFinal g0
   else if mode = 3 then (if k = 0 then g0 else if k % 2 = 1 then (g0 + 1) % 65536 else (g0 + 2 * ((k / 2) % period + 1)) % 65536)
   else (g0 + 2 * (k % period)) % 65536
 
@@ -344,16 +351,22 @@ def soloCall (a : SL.Ann) (g0 period mode : Nat) (r0 : SL.Reader) (gens0 copies0
 def soloRun (a : SL.Ann) (g0 period mode : Nat) : String :=
   let (r1, res1, ver, gens, copies, fences) := soloCall a g0 period mode ({} : SL.Reader) 0 0
   -- second call: generation frozen at g0 + 1
-  let (_, res2, _, _, _, _) := soloCall a g0 period 2 r1 gens copies
+  let (r2, res2, _, gens2, copies2, _) := soloCall a g0 period 2 r1 gens copies
   let second := match res2 with
     | some (.ok cells) => s!"then:{SL.cellsText cells}"
     | some .errNotInit => "then:err"
     | none => "then:unbounded"
+  -- third call: the generation is stable at a new even value (the writer, or a restarted one, is quiet)
+  let (_, res3, _, _, _, _) := soloCall a g0 period 4 r2 gens2 copies2
+  let third := match res3 with
+    | some (.ok cells) => s!"final:{SL.cellsText cells}"
+    | some .errNotInit => "final:err"
+    | none => "final:unbounded"
   let counts := s!"v{ver} g{gens} c{copies} f{fences}"
   match res1 with
-  | some (.ok cells) => s!"ok {SL.cellsText cells} {counts} {second}"
-  | some .errNotInit => s!"err {counts} {second}"
-  | none => s!"unbounded {counts} {second}"
+  | some (.ok cells) => s!"ok {SL.cellsText cells} {counts} {second} {third}"
+  | some .errNotInit => s!"err {counts} {second} {third}"
+  | none => s!"unbounded {counts} {second} {third}"
 
 /-- slx <g0> <period> => ok … | err v<n> g<n> c<n> f<n> | unbounded … -/
 def slxLine (args impl : List String) : String :=
@@ -370,14 +383,24 @@ def slxLine (args impl : List String) : String :=
     let thenTok := ((impl.find? (fun t => t.startsWith "then:")).map (fun t => (t.drop 5).toString)).getD "?"
     let odd2 := decide ((g0.toNat + 1) % 2 = 1)
     let secondOk := !odd2 || thenTok == firstCells
+    -- the third call (stable new even generation) must deliver a record copied during that call:
+    -- an attached reader sees later publications whatever its earlier calls went through (C03/C04 (b))
+    let finalTok := ((impl.find? (fun t => t.startsWith "final:")).map (fun t => (t.drop 6).toString)).getD "?"
+    let finalOk := match (finalTok.splitOn ",").head?.bind String.toNat? with
+      | some c0 => decide (c0 ≥ 1000) && finalTok != thenTok
+      | none => false
     let v := verdict "C18" true (returned && decide (genLoads ≤ SL.RETRIES + 1) && thenTok != "unbounded") ++ " " ++
-             verdict "C02" true secondOk
+             verdict "C02" true secondOk ++ " " ++ verdict "C03" true finalOk ++ " " ++ verdict "C04" true finalOk
     let tags := (if genLoads > 1000 then ["exhaust"] else ["short"]) ++ (if mode == 1 then ["deadWriter"] else if mode == 3 then ["alternating"] else [])
     s!"{m} | {v} | {String.intercalate "," tags}"
   | _ => "bad-op | |"
 
 /-- crashpt <prior> <k> <k1> <k2> => ev … ; crashed … ; restarted … -/
-def crashLine (args impl : List String) : String :=
+def crashLine (args0 impl : List String) : String :=
+  -- `@old` / `@bin`: age and spelling of the file name; the protocol does not depend on either
+  let mods := args0.takeWhile (fun t => t.startsWith "@")
+  let args := args0.dropWhile (fun t => t.startsWith "@")
+  if !(mods.all (fun t => t == "@old" || t == "@bin")) then "bad-op | |" else
   let parsed : Option (Crash.Prior × List String) := match args with
     | "missing" :: r => some (.missing, r) | "empty" :: r => some (.empty, r) | "garbage" :: r => some (.garbage, r)
     | "wiped" :: r => some (.wiped, r)
@@ -405,7 +428,8 @@ def crashLine (args impl : List String) : String :=
       let v := verdict "C04" true (C04.HoldsFile p k1 k2 o) ++ " " ++ verdict "C16" true c16 ++ " " ++
                verdict "C03" p.file.usable c03
       let tags := (if p.file.usable then ["priorUsable"] else ["priorUnusable"]) ++
-        (if m.ev != "end" then ["crash"] else ["complete"]) ++ (if m.ev.startsWith "wipe" then ["crashInWipe"] else [])
+        (if m.ev != "end" then ["crash"] else ["complete"]) ++ (if m.ev.startsWith "wipe" then ["crashInWipe"] else []) ++
+        (if mods.contains "@old" then ["oldFile"] else []) ++ (if mods.contains "@bin" then ["binaryName"] else [])
       s!"{m.text} | {v} | {String.intercalate "," tags}"
     | _, _, _ => "bad-op | |"
   | _ => "bad-op | |"
@@ -472,6 +496,7 @@ def processLine (line : String) : String :=
     let torn := impl.headD "" == "torn"
     String.intercalate " " impl ++ " | " ++ (if torn then "C02:FAILS" else "C02:holds") ++ " | k1"
   | "poll" :: args => (DriverP.line "poll" args impl).getD "bad-op | |"
+  | "pollr" :: args => (DriverP.line "poll" args impl).getD "bad-op | |"   -- same scenario via `chrony_poller::run`
   | "world" :: args => (DriverW.line "world" args impl).getD "bad-op | |"
   | "drift" :: args => driftLine args (match impl with | "refused" :: _ => ["refused"] | x => x)
   | _ => "bad-op | |"
